@@ -28,6 +28,8 @@ MSD = 'merge_ska_dict::MergeSkaDict'
 
 
 def run(facts, chk, tier, only=None):
+    from . import e2e2
+    chk.guard('C07.e2e', 'C07.e2e:run', lambda: e2e2.check_merge_e2e(facts, chk, 'C07.e2e', tier))
     kf = facts.field_index(MSD, 'k')
     rf = facts.field_index(MSD, 'rc')
 
@@ -226,6 +228,9 @@ def run(facts, chk, tier, only=None):
         else:
             chk.violation('C07.rows', 'C07.rows:to_dict', where='merge_ska_array::MergeSkaArray::to_dict', detail='to_dict builds the dictionary with %s' % why)
 
+    # an input that cannot be loaded (other integer width = other k range, damaged) must stop the merge, not be skipped
+    from . import c19
+    chk.guard('C07.guard', 'C07.guard:callers:run', lambda: c19.check_callers(facts, chk, 'C07.guard:load'))
     from . import tableops
     chk.guard('C07.func', 'C07.func:pipeline', lambda: tableops.check_merge_pipeline(facts, chk, 'C07.func', tier))
     chk.guard('C07.missing', 'C07.missing:run', lambda: c03.check_gap(facts, chk, 'C07.missing'))
